@@ -421,7 +421,7 @@ class P:
         return l
     def term(self, ns):
         l = self.unary(ns)
-        while self.peek()[1] in ("*", "/") and self.peek()[0] == "op":
+        while self.peek()[1] in ("*", "/", "%") and self.peek()[0] == "op":
             o = self.eat()[1]; r = self.unary(ns); l = ("bin", o, l, r)
         return l
     def unary(self, ns):
@@ -592,6 +592,7 @@ class Emitter:
         self.depth = 0
         self.inputs = set()
         self.reads_as_inputs = False
+        self.const_generics = {}      # const generic parameter -> the expression that gives its value (the length of an array argument)
         self.used = []                # the functions whose bodies were inlined into this translation (for the inventory)
         self.vec_index = False        # `a[i]` indexes a Vec / VecDeque (EAt) rather than a fixed array of MaybeUninit slots (EIndex)
         self.t_default = None         # what `T::default()` is for the instantiation of a generic impl that is being translated
@@ -675,9 +676,11 @@ class Emitter:
     def is_usize(self, e):
         k = e[0]
         if k == "num": return "." not in e[1]
-        if k == "path": return len(e[1]) == 1 and e[1][0] in self.int_vars
+        if k == "path": return len(e[1]) == 1 and (e[1][0] in self.int_vars or e[1][0] in self.const_generics)
         if k == "paren": return self.is_usize(e[1])
-        if k == "bin" and e[1] in ("+", "-"): return self.is_usize(e[2]) and self.is_usize(e[3])
+        if k == "bin" and e[1] in ("+", "-", "%"): return self.is_usize(e[2]) and self.is_usize(e[3])
+        if k == "mcall" and e[2] == "len" and not e[3]: return True
+        if k == "path" and len(e[1]) == 1 and e[1][0] in self.const_generics: return True
         return False
 
     def find_array_input(self, ast):
@@ -885,6 +888,7 @@ class Emitter:
             if path == ["Error", "FromNone"]: return "EErrFromNone"
             if len(path) == 2 and path[0] == "PositionDerivative": return "(ELit (VPD %s))" % PD[path[1]]
             if path == ["PhantomData"]: return "EUnit"
+            if len(path) == 1 and path[0] in self.const_generics: return self.const_generics[path[0]]
             if len(path) == 2 and path[0] in self.enums: return "(EVariant %s)" % qs("::".join(path))
             if len(path) == 1:
                 n = path[0]
@@ -904,6 +908,8 @@ class Emitter:
             o = e[1]
             if o in ("+", "-") and self.is_usize(e[2]) and self.is_usize(e[3]):
                 return "(EUs %d %s %s)" % (OPS[o], self.expr(e[2]), self.expr(e[3]))
+            if o == "%" and self.is_usize(e[2]) and self.is_usize(e[3]):
+                return "(EUs 3 %s %s)" % (self.expr(e[2]), self.expr(e[3]))
             if o in OPS and self.is_int(e[2]) and self.is_int(e[3]):
                 return "(EInt %d [%s; %s])" % (OPS[o], self.expr(e[2]), self.expr(e[3]))
             if o in OPS: return "(EOp %d [%s; %s])" % (OPS[o], self.expr(e[2]), self.expr(e[3]))
@@ -977,8 +983,12 @@ class Emitter:
                 if path == ["Command", "new"] and len(args) == 2 and args[1][0] == "mcall" and args[1][2] == "into" and not args[1][3]:
                     # Command::new(kind, value: f32): the `.into()` of the second argument is f32::from(Quantity)
                     return "(EOp 31 [%s; (EOp 23 [%s])])" % (self.expr(args[0]), self.expr(args[1][1]))
+                if path == ["RefCell", "new"] and len(args) == 1:
+                    return self.expr(args[0])
+                if len(path) == 2 and path[0] == "Self" and self.self_type:
+                    path = [self.self_type, path[1]]
                 if len(path) == 2 and tuple(path) not in CTOR_OPS and (path[0], path[1]) in self.fns and len(self.fns[(path[0], path[1])]) == 1 \
-                        and not self.fns[(path[0], path[1])][0].get("has_self") and path[0] in ("SettableData",):
+                        and not self.fns[(path[0], path[1])][0].get("has_self") and path[0] in ("SettableData", "Terminal", "GearTrain", "Invert", "Differential"):
                     # an associated function of the crate without a receiver (a constructor): its translated body, parameters bound
                     f = self.fns[(path[0], path[1])][0]
                     self.used.append(f)
